@@ -8,6 +8,8 @@
 //!   describe                       frame dependency structure (for the model)
 //!   failfrom <n|off|+d>            H1 switch: absolute call index, relative to now, or off
 //!   allocs                         -> allocs=<n>
+//!   budget | leave <n> | shrink <n> | raise <n>   the tracker's real byte limit (C08: a render refused by
+//!                                  the limit, then the limit given back: the next render is the clean one)
 //!   render <kf>                    render_frame(kf) under the deadline  -> ok <hash> | err <kind> | HANG
 //!                                  followed by ` st=<states> ev=<trace> ex=<counters>`
 //!   region <l> <t> <w> <h>         set_image_region (request_image_region -> reset_cache)
@@ -741,6 +743,31 @@ fn main() {
                 Some("ok".into())
             }
             ["allocs"] => Some(format!("allocs={}", st.tracker.verif_alloc_calls())),
+            // the real limit (not the H1 switch): what the tracker holds and what is left
+            ["budget"] => Some(format!(
+                "outstanding={} peak={} left={}",
+                st.tracker.verif_outstanding(),
+                st.tracker.verif_peak_outstanding(),
+                st.tracker.verif_bytes_left()
+            )),
+            ["leave", n] => {
+                let n: usize = n.parse().ok()?;
+                let left = st.tracker.verif_bytes_left();
+                if left >= n {
+                    Some(match st.tracker.shrink_limit(left - n) { Ok(()) => "ok".into(), Err(_) => "err oom".into() })
+                } else {
+                    st.tracker.expand_limit(n - left);
+                    Some("ok".into())
+                }
+            }
+            ["shrink", n] => {
+                let n: usize = n.parse().ok()?;
+                Some(match st.tracker.shrink_limit(n) { Ok(()) => "ok".into(), Err(_) => "err oom".into() })
+            }
+            ["raise", n] => {
+                st.tracker.expand_limit(n.parse().ok()?);
+                Some("ok".into())
+            }
             ["deadline", ms] => {
                 st.deadline = Duration::from_millis(ms.parse().ok()?);
                 Some("ok".into())
